@@ -264,22 +264,38 @@ impl LazyFormatContext {
     ///
     /// A mutex guard containing a reference to the global format context.
     pub fn get(&self) -> std::sync::MutexGuard<'_, Option<FormatContext>> {
+        #[cfg(bc_envelope_verif)]
+        crate::verif_hooks::emit("once_enter", "FC");
         self.init.call_once(|| {
+            #[cfg(bc_envelope_verif)]
+            crate::verif_hooks::emit("once_run_begin", "FC");
+            #[cfg(bc_envelope_verif)]
+            crate::verif_hooks::emit("blip", "TAGS");
             bc_components::register_tags();
             let tags_binding = dcbor::GLOBAL_TAGS.get();
+            #[cfg(bc_envelope_verif)]
+            crate::verif_hooks::emit("acq", "TAGS");
+            #[cfg(bc_envelope_verif)]
+            let _verif_rel_tags = crate::verif_hooks::ReleaseMark("TAGS");
             let tags = tags_binding.as_ref().unwrap();
 
             #[cfg(feature = "known_value")]
             let known_values_binding = KNOWN_VALUES.get();
+            #[cfg(all(bc_envelope_verif, feature = "known_value"))]
+            let _verif_rel_kv = crate::verif_hooks::ReleaseMark("KV");
             #[cfg(feature = "known_value")]
             let known_values = known_values_binding.as_ref().unwrap();
 
             #[cfg(feature = "expression")]
             let functions_binding = GLOBAL_FUNCTIONS.get();
+            #[cfg(all(bc_envelope_verif, feature = "expression"))]
+            let _verif_rel_fn = crate::verif_hooks::ReleaseMark("FN");
             #[cfg(feature = "expression")]
             let functions = functions_binding.as_ref().unwrap();
             #[cfg(feature = "expression")]
             let parameters_binding = GLOBAL_PARAMETERS.get();
+            #[cfg(all(bc_envelope_verif, feature = "expression"))]
+            let _verif_rel_param = crate::verif_hooks::ReleaseMark("PARAM");
             #[cfg(feature = "expression")]
             let parameters = parameters_binding.as_ref().unwrap();
 
@@ -290,8 +306,19 @@ impl LazyFormatContext {
                 #[cfg(feature = "expression")] Some(functions),
                 #[cfg(feature = "expression")] Some(parameters)
             );
+            #[cfg(bc_envelope_verif)]
+            crate::verif_hooks::emit("blip", "FC");
             *self.data.lock().unwrap() = Some(context);
+            #[cfg(bc_envelope_verif)]
+            crate::verif_hooks::emit("once_run_end", "FC");
         });
+        #[cfg(bc_envelope_verif)]
+        {
+            let guard = self.data.lock().unwrap();
+            crate::verif_hooks::emit("acq", "FC");
+            return guard;
+        }
+        #[cfg(not(bc_envelope_verif))]
         self.data.lock().unwrap()
     }
 }
@@ -321,6 +348,8 @@ macro_rules! with_format_context {
     ($action:expr) => {
         {
         let binding = $crate::GLOBAL_FORMAT_CONTEXT.get();
+        #[cfg(bc_envelope_verif)]
+        let _verif_release = $crate::verif_hooks::ReleaseMark("FC");
         let context = &*binding.as_ref().unwrap();
         #[allow(clippy::redundant_closure_call)]
         $action(context)
@@ -350,6 +379,8 @@ macro_rules! with_format_context_mut {
     ($action:expr) => {
         {
         let mut binding = $crate::GLOBAL_FORMAT_CONTEXT.get();
+        #[cfg(bc_envelope_verif)]
+        let _verif_release = $crate::verif_hooks::ReleaseMark("FC");
         let context = binding.as_mut().unwrap();
         #[allow(clippy::redundant_closure_call)]
         $action(context)
